@@ -63,7 +63,19 @@ SEL_PATHS = [[], [("k", "a")], [("k", "b")], [("k", "zz")], [("i", 0)], [("i", 1
 
 # ------------------------------------------------------------------ patterns
 
+# patterns whose value does not depend on $: one of every kind of value.  A rule runs iff that value is truthy: a regex, null and
+# an unset variable are not (a regex is not matched against $ implicitly), a function, an array and an object always are
+VALUE_PATS = {
+    "/^M/": False, "/a/": False, "/./": False, "/^$/": False, "/.*/": False, "/[0-9]/": False, "rxf()": False, "!/a/": True, "!rxf()": True,
+    "idf": True, "\"a\"": True, "\"\"": False, "\"0\"": True, "'Mark'": True, "0": False, "1": True, "0.0": False, "-1": True, "1 - 1": False,
+    "[]": True, "[0]": True, "({})": True, "({a: 0})": True, "null": False, "unsetvar": False, "!null": True,
+}
+PREAMBLE = {"rxf": "function rxf() { return /^M/ }", "idf": "function idf(x) { return x }"}
+
+
 def pat_eval(p, v):
+    if p in VALUE_PATS:
+        return VALUE_PATS[p]
     if p is None or p == "true":
         return True
     if p == "false":
@@ -110,6 +122,9 @@ def expected(cfg):
         plant = rule.get("plant")
         if plant is None:
             out.append(line)
+            if rule.get("write"):
+                # the rule assigns to $ after tracing it: visible to the rest of this body only
+                out.append(rid + "w " + pyref.pretty(rule["write"][1]))
             return
         count[rid] = count.get(rid, 0) + 1
         hit = plant["at"] == 0 or count[rid] == plant["at"]
@@ -181,6 +196,8 @@ def rule_text(rule, with_index, rng):
     sep = rng.choice(["\n  ", "; "])
     if plant is None:
         stmts = [pr]
+        if rule.get("write"):
+            stmts += [rule["write"][0], 'print "%sw", $' % rid]
     else:
         c = "c" + rid
         inc = rng.choice(["%s = %s + 1" % (c, c), "%s++" % c, "%s += 1" % c])
@@ -208,12 +225,16 @@ def program_text(cfg, rng):
     rules = cfg["rules"]
     for i, r in enumerate(rules):
         parts.append(rule_text(r, cfg["with_index"], rng))
+    for name, text in sorted(PREAMBLE.items()):
+        if any(r["kind"] == "P" and r["pat"] and name in r["pat"] for r in rules):
+            parts.insert(rng.randrange(len(parts) + 1), text)
     return rng.choice(["\n", "\n\n", " \n"]).join(parts)
 
 
 # ------------------------------------------------------------------ inputs
 
-SCALARS = [0, 1, 2, 3, 2.5, -1, 10, "a", "", "two words", "é", "10", True, False, None]
+SCALARS = [0, 1, 2, 3, 2.5, -1, 10, "a", "", "two words", "é", "10", True, False, None, "Mark", "Mary"]
+NAMES = ["Mark", "Beth", "Mary", "a", "", "M", "10"]
 
 
 def rand_elem(rng, depth=1):
@@ -229,8 +250,10 @@ def rand_value(rng, mode):
     if mode == "arrays":
         k = rng.random()
         n = rng.randint(0, 4)
-        if k < 0.35:
+        if k < 0.25:
             return [rng.choice([0, 1, 2, 3, 2.5, -1, 10]) for _ in range(n)]
+        if k < 0.35:
+            return [rng.choice(NAMES) for _ in range(n)]
         if k < 0.5:
             return [[rand_elem(rng, 0) for _ in range(rng.randint(0, 3))] for _ in range(n)]
         if k < 0.65:
@@ -305,7 +328,7 @@ def gen_config(rng, k):
         for i in range(rng.choice(weights)):
             r = {"id": "%s%d" % (kind, i + 1), "kind": kind, "pat": None, "bodyless": False}
             if kind == "P":
-                r["pat"] = rng.choice(pats)
+                r["pat"] = rng.choice(pats) if rng.random() < 0.7 else rng.choice(sorted(VALUE_PATS))
                 if r["pat"] is not None and rng.random() < 0.2:
                     r["bodyless"] = True
             elif rng.random() < 0.06:
@@ -317,6 +340,9 @@ def gen_config(rng, k):
     # (nor with a prefix operator, which the expression parser would try to continue with)
         if rules[i]["bodyless"] and rules[i + 1]["kind"] == "P" and rules[i + 1]["pat"] in (None, "!$"):
             rules[i + 1]["pat"] = "true" if rules[i + 1]["pat"] is None else "$"
+        # (nor with `[`, `(`, `/`, `-`, which would continue the body-less rule's pattern as an index, a call, a division ...)
+        if rules[i]["bodyless"] and rules[i + 1]["kind"] == "P" and rules[i + 1]["pat"] in VALUE_PATS:
+            rules[i]["bodyless"] = False
     cfg["rules"] = rules
     # plants
     if rules and rng.random() < 0.8:
@@ -331,7 +357,21 @@ def gen_config(rng, k):
             acts = activations(cfg, r)
             at = 0 if rng.random() < 0.15 else rng.randint(1, max(1, acts + (1 if rng.random() < 0.2 else 0)))
             r["plant"] = {"what": what, "at": at, "where": rng.choice(["before", "after", "mid"])}
+    # writes to $: a BEGIN / END rule starts with $ null and an ENDFILE rule with $ bound to the root whatever an earlier rule of
+    # the same kind stored in $ (what a write in a BEGINFILE or pattern rule does to later rules is not part of the statement)
+    for r in rules:
+        if r["bodyless"] or "plant" in r or rng.random() >= 0.3:
+            continue
+        if r["kind"] in ("B", "E"):
+            r["write"] = rng.choice(WRITES_NULL)
+        elif r["kind"] == "EF":
+            r["write"] = rng.choice(WRITES_ANY)
     return cfg
+
+
+WRITES_ANY = [("$ = 5", 5.0), ("$ = \"w\"", "w"), ("$ = [1, 2]", [1.0, 2.0]), ("$ = {a: 1}", {"a": 1.0}), ("$ = true", True), ("$ = 0", 0.0),
+              ("n = 6\n  $ = n", 6.0), ("$ = [[7]]", [[7.0]])]
+WRITES_NULL = WRITES_ANY + [("$++", 1.0), ("$ += 2", 2.0), ("$--", -1.0)]
 
 
 def activations(cfg, rule):
@@ -352,7 +392,9 @@ class C02(Check):
     rule = ("tracing programs with 0-3 rules of each of the five kinds in shuffled source order (each prints its id, $, $index when "
             "every root is an array, $file), patterns absent/true/false/data-dependent, body-less rules, next/exit planted at a chosen "
             "activation through a counter, over 0-3 files x 0-3 values x 0-2 selectors with array (length 0-4), object, scalar and null "
-            "roots; expected trace computed from the configuration by a Python transcription of the documented schedule; "
+            "roots; patterns whose value is a regex, string, number, array, object, function, null or unset whatever $ is (truthiness decides, "
+            "over string elements too); BEGIN/END/ENDFILE rules that assign to $ after tracing it, followed by further rules of the same kind; "
+            "expected trace computed from the configuration by a Python transcription of the documented schedule; "
             "non-trivial = at least two rule kinds and at least two executed activations")
 
     def generate(self, rng, tier):
